@@ -171,7 +171,16 @@ func LoadProg(progType uint32, insns []byte, name string) (*Prog, string, error)
 			put64(&a, 32, ptr(logBuf))
 		}
 		copy(a[48:48+15], name)
-		fd, err := bpf(cmdProgLoad, &a)
+		// The verifier gives up with EAGAIN when a signal is pending, and the Go runtime preempts threads
+		// with signals all the time; like libbpf, try again (a long verification needs several attempts).
+		var fd uintptr
+		var err error
+		for attempt := 0; attempt < 50; attempt++ {
+			fd, err = bpf(cmdProgLoad, &a)
+			if err != unix.EAGAIN && err != unix.EINTR {
+				break
+			}
+		}
 		runtime.KeepAlive(insns)
 		runtime.KeepAlive(license)
 		runtime.KeepAlive(logBuf)
@@ -231,6 +240,17 @@ var (
 	availOnce sync.Once
 	availErr  error
 )
+
+// Transient reports whether err is a resource or scheduling condition of the machine (not a verdict
+// on the program): out of memory, too many open files, interrupted.
+func Transient(err error) bool {
+	for _, e := range []error{unix.EAGAIN, unix.EINTR, unix.ENOMEM, unix.EMFILE, unix.ENFILE, unix.ENOSPC, unix.EBUSY} {
+		if errors.Is(err, e) {
+			return true
+		}
+	}
+	return false
+}
 
 // Available reports (once) whether this process may create maps and load programs.
 func Available() error {
